@@ -7,7 +7,7 @@
    with all non-scratch mark bits unchanged when it does not. *)
 From Coq Require Import List NArith Bool Arith.
 From Verif.Common Require Import Packet PolicyRef Ipt.
-From Verif.C08 Require Import Model Spec ProofsSplit ProofsFilter Proofs.
+From Verif.C08 Require Import Model Spec ProofsSplit ProofsFilter Proofs ProofsChain.
 Import ListNotations.
 Open Scope N_scope.
 
@@ -32,6 +32,18 @@ Theorem c08_model_meets_spec : forall c e r p,
   ok_outcome c (e_sets e) r p (run_flat e (render_rule c (pk_ver p) r) p) = true.
 Proof. exact rule_exact_flat. Qed.
 Print Assumptions c08_model_meets_spec.
+
+(* FROM ONE RULE TO A RULE LIST (the body of a policy / profile chain): entered with the accept, pass and
+   drop bits clear (scratch and all other bits arbitrary), the rendered rules of `rules` stop exactly as
+   PolicyRef.policy_verdict says - allow/pass: RETURN with that verdict bit set; deny: DROP/REJECT with the
+   drop bit set; no rule decided (log rules fall through): off the end - and in every case nothing but the
+   mark changed, and of the mark only the scratch bits and the verdict bit set.  (Per-rule lemma for C09.) *)
+Theorem c08_policy_rules_exact : forall c e, marks_ok c = true -> c_fixed c = true ->
+  forall rules p,
+    forallb (in_domain c) rules = true -> wf_packet p -> verdict_clear c (pk_mark p) = true ->
+    chain_outcome c (policy_verdict (e_sets e) rules p) p (run_flat e (render_rules c (pk_ver p) rules) p).
+Proof. exact policy_rules_exact. Qed.
+Print Assumptions c08_policy_rules_exact.
 
 (* the rendered rules never jump: they need no chain map and cannot run out of fuel *)
 Theorem c08_rendered_jump_free : forall c v r, jump_free (render_rule c v r).
